@@ -100,17 +100,22 @@ func doAdd(obj *OpObj, target dom.ContainerBuilder) error {
 	}
 	// If the target location specifies an array index, a new value is
 	//      inserted into the array at the specified index.
-	if idx, isNum := obj.Path.LastSegment().IsNumeric(); isNum && parent.IsList() {
+	if parent.IsList() {
+		idx, isNum := obj.Path.LastSegment().IsNumeric()
+		if !isNum || idx > parent.(dom.List).Size() {
+			return fmt.Errorf("invalid list index: %s", obj.Path.String())
+		}
 		insertListItem(parent.(dom.ListBuilder), idx, obj.Value)
 		return nil
-	} else {
+	} else if cb, ok := parent.(dom.ContainerBuilder); ok {
 		// If the target location specifies an object member that does not
 		//      already exist, a new member is added to the object.
 		// If the target location specifies an object member that does exist,
 		//      that member's value is replaced.
-		parent.(dom.ContainerBuilder).AddValue(string(obj.Path.LastSegment()), obj.Value)
+		cb.AddValue(string(obj.Path.LastSegment()), obj.Value)
+		return nil
 	}
-	return nil
+	return fmt.Errorf("parent is not a container nor list: %s", obj.Path.Parent().String())
 }
 
 func doRemove(obj *OpObj, target dom.ContainerBuilder) error {
